@@ -58,6 +58,45 @@ def small_prime_factors(n, bound=1 << 20):
     return fs, n
 
 
+def pollard_rho(n):
+    """a non-trivial factor of composite n (deterministic parameter sweep; used on <= 128-bit cofactors only)"""
+    import math
+    if n % 2 == 0:
+        return 2
+    for c in range(1, 200):
+        x = y = 2
+        d = 1
+        f = lambda v: (v * v + c) % n
+        while d == 1:
+            x = f(x)
+            y = f(f(y))
+            d = math.gcd(abs(x - y), n)
+        if d != n:
+            return d
+    return None
+
+
+def factorize(n, limit_bits=140):
+    """complete prime factorisation of n when every composite cofactor met is below limit_bits; else None"""
+    fs, rest = small_prime_factors(n, 1 << 16)
+    out = set(fs)
+    stack = [rest] if rest > 1 else []
+    while stack:
+        m = stack.pop()
+        if m == 1:
+            continue
+        if is_prime(m):
+            out.add(m)
+            continue
+        if m.bit_length() > limit_bits:
+            return None
+        d = pollard_rho(m)
+        if d is None:
+            return None
+        stack += [d, m // d]
+    return sorted(out)
+
+
 def legendre(a, p):
     a %= p
     if a == 0:
